@@ -18,6 +18,7 @@ import (
 	registrytypes "github.com/tellor-io/layer/x/registry/types"
 	reportertypes "github.com/tellor-io/layer/x/reporter/types"
 
+	"cosmossdk.io/collections"
 	sdkmath "cosmossdk.io/math"
 
 	sdk "github.com/cosmos/cosmos-sdk/types"
@@ -150,7 +151,7 @@ func (w *World) QN(qid []byte) string {
 
 func (w *World) emit(ev string, args Rec, res PhaseResult) Rec {
 	w.Seq++
-	rec := Rec{"ev": ev, "hist": w.Hist, "seq": w.Seq, "h": w.Height, "t": NumI64(w.Time.UnixMilli()), "ok": res.Ok}
+	rec := Rec{"ev": ev, "hist": w.Hist, "seq": w.Seq, "h": w.Height, "t": NumI64(w.Time.UnixMilli()), "tn": NumI64(w.Time.UnixNano()), "ok": res.Ok}
 	for k, v := range args {
 		rec[k] = v
 	}
@@ -194,7 +195,7 @@ func errClass(s string) string {
 // halts this history (the chain cannot make progress).
 func (w *World) Begin(dt time.Duration) bool {
 	r := w.BeginBlock(dt)
-	w.emit("BeginBlock", Rec{"dt": NumI64(dt.Milliseconds())}, r)
+	w.emit("BeginBlock", Rec{"dt": NumI64(dt.Milliseconds()), "dtn": NumI64(dt.Nanoseconds())}, r)
 	if !r.Ok {
 		w.Halted = true
 	}
@@ -245,22 +246,22 @@ func (w *World) Redelegate(a *Actor, from, to *Val, amt int64) PhaseResult {
 }
 
 func (w *World) CreateReporter(a *Actor, commission sdkmath.LegacyDec, minTokens int64) PhaseResult {
-	return w.do("CreateReporter", Rec{"who": a.Name, "comm": Dec18(commission), "min": NumI64(minTokens)},
+	return w.do("CreateReporter", Rec{"who": a.Name, "comm": Dec18(commission), "min": NumI64(minTokens), "mytok": w.ownTokens(a)},
 		&reportertypes.MsgCreateReporter{ReporterAddress: a.Addr.String(), CommissionRate: commission, MinTokensRequired: sdkmath.NewInt(minTokens)})
 }
 
 func (w *World) SelectReporter(s, r *Actor) PhaseResult {
-	return w.do("SelectReporter", Rec{"who": s.Name, "rep": r.Name},
+	return w.do("SelectReporter", Rec{"who": s.Name, "rep": r.Name, "mytok": w.ownTokens(s)},
 		&reportertypes.MsgSelectReporter{SelectorAddress: s.Addr.String(), ReporterAddress: r.Addr.String()})
 }
 
 func (w *World) SwitchReporter(s, r *Actor) PhaseResult {
-	return w.do("SwitchReporter", Rec{"who": s.Name, "rep": r.Name},
+	return w.do("SwitchReporter", Rec{"who": s.Name, "rep": r.Name, "mytok": w.ownTokens(s), "unbondms": w.unbondingMs()},
 		&reportertypes.MsgSwitchReporter{SelectorAddress: s.Addr.String(), ReporterAddress: r.Addr.String()})
 }
 
 func (w *World) RemoveSelector(by, s *Actor) PhaseResult {
-	return w.do("RemoveSelector", Rec{"who": by.Name, "sel": s.Name},
+	return w.do("RemoveSelector", Rec{"who": by.Name, "sel": s.Name, "seltokens": w.ownTokens(s)},
 		&reportertypes.MsgRemoveSelector{AnyAddress: by.Addr.String(), SelectorAddress: s.Addr.String()})
 }
 
@@ -280,8 +281,18 @@ func (w *World) Tip(a *Actor, q string, amt int64) PhaseResult {
 
 func (w *World) Submit(a *Actor, q string, value string) PhaseResult {
 	msg := &oracletypes.MsgSubmitValue{Creator: a.Addr.String(), QueryData: w.QData[q], Value: value}
+	args := Rec{"who": a.Name, "q": q, "value": value, "kind": queryKind(q), "vclass": w.valueClass(q, value), "seltok": w.selectorTokens(a)}
+	if rep, err := w.App.ReporterKeeper.Reporters.Get(w.Ctx, a.Addr.Bytes()); err == nil {
+		args["isrep"] = true
+		args["jailed"] = rep.Jailed
+	} else {
+		args["isrep"] = false
+		args["jailed"] = false
+	}
+	if p, err := w.App.OracleKeeper.Params.Get(w.Ctx); err == nil {
+		args["minstake"] = NumInt(p.MinStakeAmount)
+	}
 	_, r := w.Exec(msg)
-	args := Rec{"who": a.Name, "q": q, "value": value}
 	if r.Ok {
 		// remember the stored micro report (material for disputes)
 		qid := utils.QueryIDFromData(w.QData[q])
@@ -289,6 +300,9 @@ func (w *World) Submit(a *Actor, q string, value string) PhaseResult {
 			w.Reports = append(w.Reports, mr)
 			args["power"] = NumU64(mr.Power)
 			args["cyclelist"] = mr.Cyclelist
+			if da, err := w.App.ReporterKeeper.Report.Get(w.Ctx, collections.Join(qid, collections.Join(a.Addr.Bytes(), uint64(w.Height)))); err == nil {
+				args["origins"] = w.originsRec(da)
+			}
 		}
 	}
 	w.emit("SubmitValue", args, r)
@@ -436,4 +450,125 @@ func (w *World) RegisterSpec(a *Actor, qtype string, spec registrytypes.DataSpec
 func (w *World) UpdateDataSpec(signer string, qtype string, spec registrytypes.DataSpec) PhaseResult {
 	return w.do("UpdateDataSpec", Rec{"who": w.Name(signer), "qtype": qtype, "window": int(spec.ReportBlockWindow), "agg": spec.AggregationMethod, "vtype": spec.ResponseValueType},
 		&registrytypes.MsgUpdateDataSpec{Authority: signer, QueryType: qtype, Spec: spec})
+}
+
+func queryKind(q string) string {
+	switch {
+	case strings.HasPrefix(q, "dep"):
+		return "deposit"
+	case strings.HasPrefix(q, "wd"):
+		return "withdrawal"
+	default:
+		return "normal"
+	}
+}
+
+// valueClass says whether the submitted string is a well-formed value for the query's response type
+// (generator knowledge: which generator produced it); "valid" values must be accepted when the
+// round is open.
+func (w *World) valueClass(q, v string) string {
+	b, err := hex.DecodeString(strings.TrimPrefix(strings.TrimPrefix(v, "0x"), "0X"))
+	if err != nil {
+		return "bad"
+	}
+	if queryKind(q) == "normal" {
+		if len(b) >= 32 {
+			return "valid"
+		}
+		return "bad"
+	}
+	if _, err := (abi.Arguments{{Type: tAddress}, {Type: tString}, {Type: tUint256}, {Type: tUint256}}).Unpack(b); err != nil {
+		// the registered response type is (address,string,uint256): anything that decodes to it is accepted at submission
+		if _, err2 := (abi.Arguments{{Type: tAddress}, {Type: tString}, {Type: tUint256}}).Unpack(b); err2 != nil {
+			return "bad"
+		}
+	}
+	return "valid"
+}
+
+// selectorTokens lists, for every selector of reporter a, each delegation with its token value as
+// the staking module reports it, the validator's bonding status and the selector's lock time
+// (observed stake; the spec sums what counts).
+func (w *World) selectorTokens(a *Actor) []Rec {
+	out := []Rec{}
+	_ = w.App.ReporterKeeper.Selectors.Walk(w.Ctx, nil, func(k []byte, sel reportertypes.Selection) (bool, error) {
+		if string(sel.Reporter) != string(a.Addr.Bytes()) {
+			return false, nil
+		}
+		dels, _ := w.App.StakingKeeper.GetDelegatorDelegations(w.Ctx, sdk.AccAddress(k), 1000)
+		for _, d := range dels {
+			va, _ := sdk.ValAddressFromBech32(d.ValidatorAddress)
+			v, err := w.App.StakingKeeper.GetValidator(w.Ctx, va)
+			if err != nil {
+				continue
+			}
+			out = append(out, Rec{"sel": w.Name(sdk.AccAddress(k).String()), "val": w.Name(d.ValidatorAddress), "tok": NumInt(v.TokensFromShares(d.Shares).TruncateInt()),
+				"bonded": v.IsBonded(), "locked": ms(sel.LockedUntilTime), "cnt": int(sel.DelegationsCount)})
+		}
+		return false, nil
+	})
+	return out
+}
+
+// ownTokens lists the delegations of one account as the staking module reports them.
+func (w *World) ownTokens(a *Actor) []Rec {
+	out := []Rec{}
+	dels, _ := w.App.StakingKeeper.GetDelegatorDelegations(w.Ctx, a.Addr, 1000)
+	for _, d := range dels {
+		va, _ := sdk.ValAddressFromBech32(d.ValidatorAddress)
+		v, err := w.App.StakingKeeper.GetValidator(w.Ctx, va)
+		if err != nil {
+			continue
+		}
+		out = append(out, Rec{"val": w.Name(d.ValidatorAddress), "tok": NumInt(v.TokensFromShares(d.Shares).TruncateInt()), "bonded": v.IsBonded()})
+	}
+	return out
+}
+
+func (w *World) unbondingMs() Num {
+	d, err := w.App.StakingKeeper.UnbondingTime(w.Ctx)
+	if err != nil {
+		return Num{}
+	}
+	return NumI64(d.Milliseconds())
+}
+
+// ValJail / ValUnjail: SDK-native validator status changes (what the slashing module does on
+// downtime / unjail); environment events, recorded so that the specs see the status change.
+func (w *World) ValJail(v *Val) PhaseResult {
+	r := guard(func() error {
+		val, err := w.App.StakingKeeper.GetValidator(w.Ctx, v.ValAddr)
+		if err != nil {
+			return err
+		}
+		if val.Jailed {
+			return fmt.Errorf("already jailed")
+		}
+		cons, err := val.GetConsAddr()
+		if err != nil {
+			return err
+		}
+		return w.App.StakingKeeper.Jail(w.Ctx, cons)
+	})
+	w.emit("ValJail", Rec{"val": v.Name}, r)
+	return r
+}
+
+func (w *World) ValUnjail(v *Val) PhaseResult {
+	r := guard(func() error {
+		val, err := w.App.StakingKeeper.GetValidator(w.Ctx, v.ValAddr)
+		if err != nil {
+			return err
+		}
+		if !val.Jailed {
+			return fmt.Errorf("not jailed")
+		}
+		cons, err := val.GetConsAddr()
+		if err != nil {
+			return err
+		}
+		return w.App.StakingKeeper.Unjail(w.Ctx, cons)
+	})
+	w.emit("ValUnjail", Rec{"val": v.Name}, r)
+	return r
 }
